@@ -1992,7 +1992,8 @@ func innerBlockInInline(box Box, skipStack tree.ResumeStack) (Box, Box, tree.Res
 			index += 1 // Resume *after* the block
 		} else {
 			var newChild Box
-			if InlineT.IsInstance(child) {
+			if InlineT.IsInstance(child) && !child.Box().IsRunning() {
+				// a running element is kept whole, like BlockInInline does
 				newChild, blockLevelBox, resumeAt = innerBlockInInline(child, skipStack)
 				skipStack = nil
 			} else {
